@@ -390,3 +390,39 @@ func (l *Loop) EarlyExitsAny(p *Program) []string {
 	sort.Strings(out)
 	return out
 }
+
+// CoExecutedPerIteration: in every iteration of l, instruction a is executed iff instruction b is.
+// Returns "" if so, else a description of the offending combination. Path-insensitive to data.
+func (l *Loop) CoExecutedPerIteration(p *Program, a, b ssa.Instruction) string {
+	is := func(x ssa.Instruction) func(ssa.Instruction) bool {
+		return func(i ssa.Instruction) bool { return i == x }
+	}
+	inLoop := func(from *ssa.BasicBlock, si int) bool { return !l.Blocks[from.Succs[si]] }
+	// reach x from the iteration start without passing y
+	startReaches := func(x, y ssa.Instruction) bool {
+		for _, entry := range l.bodyEntries() {
+			q := &PathQuery{Fn: l.Fn, Barrier: is(y), Target: func(i ssa.Instruction, _ *ssa.BasicBlock) bool { return i == x }}
+			q.EdgeBarrier = func(from *ssa.BasicBlock, si int) bool { return inLoop(from, si) || from.Succs[si] == l.Header }
+			if len(exploreFromBlock(q, entry, l.Header)) > 0 {
+				return true
+			}
+		}
+		return false
+	}
+	// reach the next iteration from x without passing y
+	reachesNext := func(x, y ssa.Instruction) bool {
+		q := &PathQuery{Fn: l.Fn, Barrier: is(y)}
+		q.EdgeBarrier = inLoop
+		q.Target = func(i ssa.Instruction, via *ssa.BasicBlock) bool {
+			return i == l.Header.Instrs[0] && via != nil && l.Blocks[via]
+		}
+		return len(q.From(x)) > 0
+	}
+	if startReaches(a, b) && reachesNext(a, b) {
+		return fmt.Sprintf("an iteration can execute %s without %s", p.Pos(a.Pos()), p.Pos(b.Pos()))
+	}
+	if startReaches(b, a) && reachesNext(b, a) {
+		return fmt.Sprintf("an iteration can execute %s without %s", p.Pos(b.Pos()), p.Pos(a.Pos()))
+	}
+	return ""
+}
